@@ -5,6 +5,7 @@ direct half : the real WindowFrameContext::calculate_range / WindowAggState::pru
 SQL half    : SELECT .. OVER (PARTITION BY p ORDER BY k <frame>) through BoundedWindowAggExec / WindowAggExec
               (harness/h_core/src/bin/c09sql.rs) vs the Coq declarative evaluation of the window function."""
 import fractions
+import re
 
 import vlib
 from vlib import Check, zlit, coq_bool
@@ -12,6 +13,7 @@ from vlib import Check, zlit, coq_bool
 KEY_ROWS = "C09-rows-following-offset-usize-overflow"
 KEY_GROUPS = "C09-groups-following-offset-usize-overflow"
 KEY_RANGE = "C09-range-offset-i64-overflow-next-to-null-group"
+KEY_CAUSAL = "C09-range-end-preceding-null-key-row-answered-before-its-peers-arrive"
 
 UNITS = {"rows": "Rows", "range": "Range", "groups": "Groups"}
 
@@ -134,6 +136,13 @@ def dir_key(c):
 
 def sql_key(c):
     why = c["why"]
+    m = re.search(r"\(id (\d+)\): w(\d+) = ", why)
+    if m and c["exec"] == "bounded":
+        src = {r[0]: r for r in c["rows"]}
+        fr = c["cols"][int(m.group(2))]["frame"]
+        if (fr and fr["units"] == "range" and fr["eb"][0] == "P" and int(fr["eb"][1]) > 0
+                and src[int(m.group(1))][2] is None):
+            return KEY_CAUSAL
     if "attempt to add with overflow" in why:
         big = [col["frame"] for col in c["cols"] if col["frame"] and any(b[0] == "F" and int(b[1]) > 2 ** 63 for b in (col["frame"]["sb"], col["frame"]["eb"]))]
         if big and all(f["units"] == "rows" for f in big):
